@@ -44,6 +44,7 @@ pub struct RemoteTracker {
     identity: Uuid,
     registry: LaneRegistry,
     remotes: HashMap<Uuid, Uplinks>,
+    registrations: u64,
 }
 
 impl RemoteTracker {
@@ -56,6 +57,7 @@ impl RemoteTracker {
             identity,
             registry: Default::default(),
             remotes: Default::default(),
+            registrations: 0,
         }
     }
 
@@ -92,11 +94,14 @@ impl RemoteTracker {
             identity,
             node,
             remotes,
+            registrations,
             ..
         } = self;
+        *registrations += 1;
         if let Some(existing) = remotes.insert(
             remote_id,
-            Uplinks::new(node.clone(), *identity, remote_id, writer, completion),
+            Uplinks::new(node.clone(), *identity, remote_id, writer, completion)
+                .for_registration(*registrations),
         ) {
             existing.complete(DisconnectionReason::DuplicateRegistration(remote_id));
         }
@@ -148,9 +153,18 @@ impl RemoteTracker {
             registry, remotes, ..
         } = self;
         let id = writer.remote_id();
+        // A writer that belongs to a registration that has since been replaced is dropped.
         remotes
             .get_mut(&id)
+            .filter(|uplinks| uplinks.registration() == writer.registration())
             .and_then(|uplinks| uplinks.replace_and_pop(writer, buffer, registry))
+    }
+
+    /// Whether a writer belongs to the current registration of its remote ID.
+    pub fn is_current(&self, writer: &RemoteSender) -> bool {
+        self.remotes
+            .get(&writer.remote_id())
+            .map_or(false, |uplinks| uplinks.registration() == writer.registration())
     }
 
     pub fn is_empty(&self) -> bool {
